@@ -182,7 +182,7 @@ Definition gate (c : cfg) (now : Z) (a : addr) (bl : banlist) : option (bool * b
 (** pool.rs:793-849: checkout, health check when forced or not fresh. *)
 Definition contact (now : Z) (outs : addr -> outcome) (a : addr) (force : bool) (bl1 : banlist) : vres :=
   match outs a with
-  | ConnFail => Fail (ban a FailedHealthCheck now bl1)
+  | ConnFail => Fail (ban a FailedCheckout now bl1)
   | Conn fresh h =>
       if force || negb fresh
       then match h with
